@@ -252,6 +252,15 @@ func runDispatchFile(in, out, targetsFile, tmp string) (int, error) {
 						fl = append(fl, map[string]any{"mock": map[string]any{"allow": true}})
 					case "deny":
 						fl = append(fl, map[string]any{"mock": map[string]any{"allow": false}})
+					case "broken":
+						// an OIDC filter whose provider cannot be discovered: nothing listens on the port
+						var o map[string]any
+						_ = json.Unmarshal([]byte(staticOIDC), &o)
+						delete(o, "authorization_uri")
+						delete(o, "token_uri")
+						delete(o, "jwks")
+						o["configuration_uri"] = "http://127.0.0.1:1/.well-known/openid-configuration"
+						fl = append(fl, map[string]any{"oidc": o})
 					default:
 						var o map[string]any
 						_ = json.Unmarshal([]byte(staticOIDC), &o)
@@ -386,8 +395,12 @@ func runDispatchFile(in, out, targetsFile, tmp string) (int, error) {
 		// first, on an instance of its own: every target requested by several clients at once (same path, different queries);
 		// the decision is a function of the path, so it cannot depend on who asked first
 		conc := -1
+		var mixed [][]int
 		if fltC, _, err := newFilter(cfg); err == nil {
 			const clients = 4
+			// (1) every target by several clients at once; (2) several DIFFERENT targets at once - judged below against the
+			// decisions of the sequential pass: what one request asks for cannot leak into the decision for another
+			concRes := make([]int, len(ts))
 			for i, t := range ts {
 				path := strings.Join(t, "")
 				res := make([]int, clients)
@@ -409,10 +422,32 @@ func runDispatchFile(in, out, targetsFile, tmp string) (int, error) {
 					}
 				}
 			}
+			for round := 0; round < 3; round++ {
+				var wg sync.WaitGroup
+				start := make(chan struct{})
+				for i := range ts {
+					wg.Add(1)
+					go func(i int) {
+						defer wg.Done()
+						<-start
+						concRes[i] = verdict(fltC, strings.Join(ts[i], ""))
+					}(i)
+				}
+				close(start)
+				wg.Wait()
+				mixed = append(mixed, append([]int{}, concRes...))
+			}
 		}
 		verdicts := []any{}
 		for _, t := range ts {
 			verdicts = append(verdicts, verdict(flt, strings.Join(t, "")))
+		}
+		for _, m := range mixed {
+			for i := range m {
+				if i < len(verdicts) && m[i] != verdicts[i].(int) && conc < 0 {
+					conc = i + 1
+				}
+			}
 		}
 		// the decision is a function of the path alone: the same targets once more with another method, another authority and
 		// the headers proxies and scripts add (some of which name other paths) must get the same decisions
